@@ -83,6 +83,9 @@ pxgstrf_pruneL(
 	    }
 	    
     	    if ( do_prune ) {
+#ifdef SLU_MT_VERIF
+		SLU_MT_VERIF_EVENT(SLUV_PRUNE_STEP, -1, irep, 0, jcol, Glu);
+#endif
 
 	     	/* Do a quicksort-type partition */
 	        while ( kmin <= kmax ) {
@@ -101,8 +104,14 @@ pxgstrf_pruneL(
 		    }
 	        } /* while */
 
+#ifdef SLU_MT_VERIF
+		SLU_MT_VERIF_EVENT(SLUV_PRUNE_STEP, -1, irep, 1, jcol, Glu);
+#endif
 	        xprune[irep] = kmin;	/* Pruning */
 		ispruned[irep] = 1;
+#ifdef SLU_MT_VERIF
+		SLU_MT_VERIF_EVENT(SLUV_PRUNE_STEP, -1, irep, 2, jcol, Glu);
+#endif
 
 #ifdef CHK_PRUNE
 if (irep >= LOCOL && irep >= HICOL && jcol >= LOCOL && jcol <= HICOL)	
